@@ -21,28 +21,31 @@ type Member struct {
 	Out   map[string][]string `json:"out"`
 	KPct  int                 `json:"kpct"` // crash point as a percentage of the write log (0 = never started, 100 = finished)
 	AgeS  int                 `json:"ages"` // all time stamps are shifted this many seconds into the past
+	// AgeMode "start": only start stamps are shifted (objects that ran for a long time and ended recently);
+	// "end": only end stamps. Default: both.
+	AgeMode string `json:"agemode"`
 }
 
-func shiftState(st workflow.State, d time.Duration) workflow.State {
-	if !st.Start.IsZero() {
+func shiftState(st workflow.State, d time.Duration, mode string) workflow.State {
+	if !st.Start.IsZero() && mode != "end" {
 		st.Start = st.Start.Add(-d)
 	}
-	if !st.End.IsZero() {
+	if !st.End.IsZero() && mode != "start" {
 		st.End = st.End.Add(-d)
 	}
 	return st
 }
 
-func (w writeRec) shifted(d time.Duration) writeRec {
-	w.state = shiftState(w.state, d)
+func (w writeRec) shifted(d time.Duration, mode string) writeRec {
+	w.state = shiftState(w.state, d, mode)
 	if len(w.attempts) > 0 {
 		at := make([]*workflow.Attempt, len(w.attempts))
 		for i, a := range w.attempts {
 			c := *a
-			if !c.Start.IsZero() {
+			if !c.Start.IsZero() && mode != "end" {
 				c.Start = c.Start.Add(-d)
 			}
-			if !c.End.IsZero() {
+			if !c.End.IsZero() && mode != "start" {
 				c.End = c.End.Add(-d)
 			}
 			at[i] = &c
@@ -120,7 +123,7 @@ func runResume(rec *recorder, sc *Scenario) error {
 			return fmt.Errorf("shared create: %w", err)
 		}
 		for i := 0; i < k; i++ {
-			if err := writes[i].shifted(age).apply(ctx, shared); err != nil {
+			if err := writes[i].shifted(age, m.AgeMode).apply(ctx, shared); err != nil {
 				return fmt.Errorf("shared apply: %w", err)
 			}
 		}
